@@ -107,7 +107,10 @@ TEXT = {
                    "it is recorded as a known finding, not repaired (protocol change). The schedule-quantified clause: one piece is proved on a small concurrent model (Model/Attach.lean: "
                    "C01_conc_action_never_outlives_entity for every interleaving of an entity's removal with any number of action requests; C01_old_order_keeps_a_stale_action is the kernel-checked "
                    "interleaving of the code before the repair F21; Model/Handover.lean: C01_conc_newcomer_consistent - every interleaving of a join with the departure of an entity's owner leaves the newcomer "
-                   "without the entity and without its action, decided over the complete table of interleavings - and C01_old_handover_leaves_a_stale_action for the code before F23). One part of the schedule clause is FALSE of the code and recorded as finding F26: two participants writing the same "
+                   "without the entity and without its action, decided over the complete table of interleavings - and C01_old_handover_leaves_a_stale_action for the code before F23). "
+                   "Model/Newcomer.lean, Props/C01New.lean: C01_conc_newcomer_gets_state_then_relays - for every interleaving of any number of writers (apply, then relay) with a join (take the place; "
+                   "read and be sent the state in one critical section under the participants write lock), the newcomer ends with exactly the changes the session holds; "
+                   "C01_old_split_state_loses_a_change is the interleaving of the code before the repair F32; tied by Gen/AbsOrder.newcomer_state_is_one_critical_section. One part of the schedule clause is FALSE of the code and recorded as finding F26: two participants writing the same "
                    "component or entity action at the same time are relayed in an order that can differ from the order the writes were applied in (Model/Writers.lean: C01_concurrent_writers_diverge "
                    "is the kernel-checked interleaving; C01_conc_atomic_writes_converge shows that applying and relaying in one critical section would converge); the check prints KNOWN-FINDING for "
                    "exactly that situation. The rest is explored on the real handlers, not proved: every interleaving with at most two preemptions of 2-3 concurrent requests "
